@@ -759,6 +759,78 @@ def r05_8(ctx):
     ctx.ob("read-adapters", n_ad >= 4, "lib", f"{n_ad} adapter body(ies) with a read of a generic source examined ({seen_reads} io::Read impls in the crate)")
 
 
+@rule("R03.6", 3, "the YAML chunk reader cuts its capture buffer at `mark - offset of the buffer's first byte`: wherever an event offset handed to the reader meets the reader's start-offset field in a subtraction, the offset is the minuend; and the method that cuts also moves the field to that offset", ["C03", "C05", "C02"])
+def r03_6(ctx):
+    lib = ctx.lib
+    crs = [b for b in lib.bodies if b.raw.get("impl_trait") == "std::io::Read" and b.name == "read" and any((fn_of(t) or {}).get("name") == "extend_from_slice" for _, t in b.calls())]
+    ctx.need(len(crs) == 1, "capturing chunk reader not found")
+    cr = crs[0]
+    cr_adt = cr.raw.get("impl_self_adt")
+    own = [b for b in lib.bodies if b.raw.get("impl_self_adt") == cr_adt and b.raw["def_kind"] != "Closure"]
+    own_ids = {b.id for b in own}
+
+    def kind_of(body, op):
+        """'param' (a u64 parameter of this body other than self), ('field', name) (a u64 field of self), or None."""
+        if not is_place(op):
+            return None
+        tr = trace(body, op)
+        if not (tr.origin and tr.origin[0] == "arg"):
+            return None
+        if tr.origin[1] >= 2 and body.local_ty(tr.origin[1]) == "u64" and all(s_[0] == "use" for s_ in tr.steps):
+            return "param"
+        fs = [s_ for s_ in tr.steps if s_[0] == "field"]
+        if tr.origin[1] == 1 and len(fs) == 1:
+            return ("field", fs[0][1])
+        return None
+
+    n = 0
+    for e in own:
+        if e.nargs < 2 or not any(e.local_ty(k) == "u64" for k in range(2, e.nargs + 1)):
+            continue
+        if not any(((fn_of(t) or {}).get("resolved") or (fn_of(t) or {}).get("def")) == e.id for c in lib.bodies if c.id not in own_ids for _, t in c.calls()):
+            continue
+        sup = Super(lib, e, depth=2)
+        subs = []
+        fields = set()
+        for node in sorted(sup.nodes(), key=str):
+            body = sup.body_of(node)
+            if body.id not in own_ids:
+                continue
+            blk = body.blocks[node[1]]
+            pairs = []
+            for s_ in blk["stmts"]:
+                if s_["k"] == "assign" and s_["rv"]["k"] == "binop" and s_["rv"]["op"] in ("Sub", "SubWithOverflow", "SubUnchecked"):
+                    pairs.append((s_["rv"]["a"], s_["rv"]["b"], s_.get("line")))
+            t = blk["term"]
+            if t["k"] == "call" and (fn_of(t) or {}).get("name") in ("saturating_sub", "checked_sub", "wrapping_sub", "abs_diff") and len(t["args"]) == 2:
+                pairs.append((t["args"][0], t["args"][1], t.get("line")))
+            for a_, c_, ln in pairs:
+                ka, kc = kind_of(body, a_), kind_of(body, c_)
+                if ka == "param" and isinstance(kc, tuple):
+                    subs.append((node, True, kc[1]))
+                    fields.add(kc[1])
+                elif kc == "param" and isinstance(ka, tuple):
+                    subs.append((node, False, ka[1]))
+                    fields.add(ka[1])
+        if not subs:
+            continue
+        n += 1
+        wrong = [x for x in subs if not x[1]]
+        ctx.ob(f"cut-length:{e.name}", not wrong, sup.site(wrong[0][0]) if wrong else site(e),
+               f"{len(subs)} subtraction(s) of the form (event offset) - self.{sorted(fields)[0]}" if not wrong else
+               f"self.{wrong[0][2]} minus the event offset: the operands of the cut length are the wrong way round (with a saturating or wrapping subtraction the result is 0 or garbage instead of a panic): the buffer is cut at the wrong byte, documents lose their tails or leading bytes are never dropped")
+        stored = False
+        for node in sorted(sup.nodes(), key=str):
+            body = sup.body_of(node)
+            if body.id not in own_ids:
+                continue
+            for s_ in body.blocks[node[1]]["stmts"]:
+                if s_["k"] == "assign" and s_["p"]["pr"] and s_["p"]["pr"][-1]["k"] == "field" and s_["p"]["pr"][-1].get("name") in fields and s_["rv"]["k"] == "use" and kind_of(body, s_["rv"]["op"]) == "param":
+                    stored = True
+        ctx.ob(f"start-offset-follows:{e.name}", stored, site(e), f"self.{sorted(fields)[0]} is set to the offset the buffer was cut at" if stored else f"self.{sorted(fields)[0]} is not moved to the cut point: every later cut is computed from a stale start offset")
+    ctx.ob("cutting-methods", n >= 2, site(cr), f"{n} method(s) of the chunk reader that cut at an event offset")
+
+
 # --------------------------------------------------------------------------- C10
 
 
@@ -864,7 +936,7 @@ def r10_5(ctx):
     ctx.ob("content-event-edges", n >= 3, site(ch["loop"]), f"{n} edge(s) of non-yielding events examined")
 
 
-@rule("R10.4", 3, "the TOML trial's size cap applies to unbuffered reader input only, and is not below the 2 MiB the properties are stated for: in-memory input of any size is parsed", ["C10", "C09"])
+@rule("R10.4", 3, "the TOML trial's size cap applies to unbuffered reader input only, and is not below the 2 MiB the properties are stated for: in-memory input of any size is parsed", ["C10", "C09", "C02", "C14"])
 def r10_4(ctx):
     lib = ctx.lib
     trial = common.trial_functions(ctx.facts)["toml"]
